@@ -244,6 +244,66 @@ func keyUnit(lo, hi int, deep bool) harness.Unit {
 	}}
 }
 
+// lastOctetUnit: the encrypted PKCS#8 form pads the inner DER to the cipher block, and the inner DER
+// ends with the last octet of the public key's y; its length follows the number of octets of d. For
+// every chosen octet count of d and EVERY value v of that final octet in the tier's range a key is
+// found by search (d = 0x80.. + i, smallest i), and must survive the password-protected DER and PEM
+// forms with the same password.
+func lastOctetUnit(lens []int, vmax int) harness.Unit {
+	return harness.Unit{Name: fmt.Sprintf("pkcs8-final-octet/len%v/v0..%d", lens, vmax), Run: func(c *harness.Ctx) {
+		pw := []byte("Passw0rd!")
+		g := refsm2.G()
+		for _, L := range lens {
+			d0 := new(big.Int).Lsh(big.NewInt(0x80), uint(8*(L-1)))
+			p := refsm2.BaseMul(d0)
+			found := map[int]bool{}
+			for i := int64(0); len(found) <= vmax && i < 20000; i++ {
+				if i > 0 {
+					p = refsm2.Add(p, g)
+				}
+				v := int(new(big.Int).And(p.Y, big.NewInt(255)).Int64())
+				if v > vmax || found[v] {
+					continue
+				}
+				found[v] = true
+				d := new(big.Int).Add(d0, big.NewInt(i))
+				k := sm2k.Key{Name: fmt.Sprintf("d of %d octets, y ends in %02x", L, v), D: d, Pub: refsm2.Point{X: new(big.Int).Set(p.X), Y: new(big.Int).Set(p.Y)}}
+				priv := k.Lib()
+				c.Add("evaluations", 1)
+				c.DistinctS("nontrivial", fmt.Sprintf("final-octet/%d/%d", L, v))
+				c.Guard("pkcs8-panic:final-octet", "PKCS#8 "+k.Name, nil, func() {
+					der, err := gx509.MarshalSm2PrivateKey(priv, pw)
+					if err != nil {
+						c.Violate("pkcs8-marshal:ascii", fmt.Sprintf("[%s] %v", k.Name, err), nil, nil)
+						return
+					}
+					back, err := gx509.ParsePKCS8PrivateKey(der, pw)
+					if err != nil {
+						c.Violate("pkcs8-parse:final-octet-of-inner-DER", fmt.Sprintf("[%s] own encrypted PKCS#8 output rejected with the same password: %v", k.Name, err), nil, nil)
+					} else if df := samePriv(back, k); df != "" {
+						c.Violate("pkcs8-value:final-octet-of-inner-DER", fmt.Sprintf("[%s] encrypted PKCS#8 round trip: %s", k.Name, df), nil, nil)
+					}
+					pm, err := gx509.WritePrivateKeyToPem(priv, pw)
+					if err != nil {
+						c.Violate("pem-priv-write:ascii", fmt.Sprintf("[%s] %v", k.Name, err), nil, nil)
+						return
+					}
+					back, err = gx509.ReadPrivateKeyFromPem(pm, pw)
+					if err != nil {
+						c.Violate("pem-priv-read:final-octet-of-inner-DER", fmt.Sprintf("[%s] own password-protected PEM rejected with the same password: %v", k.Name, err), nil, nil)
+					} else if df := samePriv(back, k); df != "" {
+						c.Violate("pem-priv-value:final-octet-of-inner-DER", fmt.Sprintf("[%s] password-protected PEM round trip: %s", k.Name, df), nil, nil)
+					}
+				})
+			}
+			if len(found) <= vmax {
+				c.Note("len %d: only %d of %d final-octet values found within the search bound", L, len(found), vmax+1)
+			}
+			c.Sample(fmt.Sprintf("d of %d octets x final octet of y in 0..%d, password-protected DER and PEM", L, vmax))
+		}
+	}}
+}
+
 // codecHistoryUnit: package-level state between calls. Every ordered triple of keys from a set with
 // 0, 1 and 2 leading zero bytes in either coordinate (and in d) goes through each key codec in ONE
 // process, in that order; every result must be what the codec gives for that key alone.
@@ -597,7 +657,7 @@ func loadersUnit() harness.Unit {
 var Prop = &harness.Prop{
 	ID:          "C14",
 	Level:       "exploration",
-	Rule:        "full product of the key alphabet (12 shared keys + d with 1/3 leading zero bytes, odd hex digit counts, [thorough] Px with two leading zero bytes) x every codec pair (hex private/public, compressed point, PKIX DER/PEM, generic PKIX, PKCS#8 DER/PEM x passwords {nil, empty, ASCII, UTF-8, 1 KiB}) with field-by-field comparison; every wrong-password variant (one character, case, length +-1, empty) must be refused; (r,s) over 8 boundary values squared; ASN.1 ciphertext with 0..5 leading zero bytes in each coordinate; every (certificate, key) pair over 3 SM2 + RSA + P-256 identities for each TLS loader: accepted iff matching. Distinct/non-trivial = distinct (value, codec) labels. The loader matrix includes the negation n-d of the first key (same x coordinate as the certificate's key).",
+	Rule:        "full product of the key alphabet (12 shared keys + d with 1/3 leading zero bytes, odd hex digit counts, [thorough] Px with two leading zero bytes) x every codec pair (hex private/public, compressed point, PKIX DER/PEM, generic PKIX, PKCS#8 DER/PEM x passwords {nil, empty, ASCII, UTF-8, 1 KiB}) with field-by-field comparison; every wrong-password variant (one character, case, length +-1, empty) must be refused; (r,s) over 8 boundary values squared; ASN.1 ciphertext with 0..5 leading zero bytes in each coordinate; every (certificate, key) pair over 3 SM2 + RSA + P-256 identities for each TLS loader: accepted iff matching. Distinct/non-trivial = distinct (value, codec) labels. The loader matrix includes the negation n-d of the first key (same x coordinate as the certificate's key). Final-octet units: for d of 32,31,30,29,28,17,16,15,2,1 octets (thorough: every count 1..32) and every value 0..16 (thorough: 0..255) of the last octet of y - the last octet of the DER that the password-protected form pads and encrypts - a key found by search survives the protected DER and PEM forms.",
 	Assumptions: []string{"refsm2 computes the public points; salts/IVs of the encrypted PKCS#8 come from crypto/rand inside the library (not observed by the property)"},
 	Bounds: func(tier string) string {
 		return "complete for the stated alphabets; thorough adds the searched Px-with-two-leading-zero-bytes key"
@@ -614,6 +674,13 @@ var Prop = &harness.Prop{
 			u = append(u, keyUnit(lo, lo+1, deep))
 		}
 		u = append(u, sigCipherUnit(), loadersUnit(), codecHistoryUnit())
+		if deep {
+			for L := 1; L <= 32; L += 4 {
+				u = append(u, lastOctetUnit([]int{L, L + 1, L + 2, L + 3}, 255))
+			}
+		} else {
+			u = append(u, lastOctetUnit([]int{32, 31, 30, 29}, 16), lastOctetUnit([]int{28, 17, 16, 15, 2, 1}, 16))
+		}
 		return u
 	},
 }
